@@ -26,6 +26,13 @@
       (never [Err ELinAlg]), they minimise, and they are the minimiser up to a
       shift; carried to the main body chosen by get_series_time_offsets
       (Proofs/MainBodyComplete.v), where connectedness is itself a theorem (C08).
+    - VIEWS (last section): the SQL views average_rising_depth /
+      average_recession_time, modelled as SQL computes them (Model/Views.v), list
+      at each level exactly [head_mean E x h] for E = the entries of the aligned
+      intervals and x = the stored offsets (C05_view_is_level_mean), and over the
+      tables written from find_offsets' result they show the minimiser's curve
+      (C05_view_shows_minimiser_curve): the theorems above are statements about
+      what the user sees.
     Still by correspondence only: that numpy.linalg.solve on the floating-point
     system stays within the tolerance of the exact rational solution. *)
 From Spowtd Require Import Model.FitOffsets Model.Components Proofs.QSum Proofs.FitOffsetsSpec
@@ -250,3 +257,70 @@ Example C05_example_zero_residuals :
   forallb (fun s => Qeq_bool (resid_sum E (assignment [0%nat; 1%nat; 2%nat] [20 # 3; 53 # 15; 0]) s) 0)
           [0%nat; 1%nat; 2%nat] = true.
 Proof. vm_compute. reflexivity. Qed.
+
+(** ** What the user sees: the views average_rising_depth / average_recession_time
+    (Model/Views.v: INNER JOIN of the offsets table, the crossing table and the
+    grid levels, GROUP BY level, AVG(offset + crossing), ascending levels).
+
+    [offsets] = rows (start_epoch, offset), [crossings] = rows (start_epoch,
+    zeta_number, mean crossing), [grid] = discrete_zeta (a PRIMARY KEY: no level
+    twice).  [E] = the entries of the ALIGNED intervals (those with an offsets
+    row; interval id = position of that row), [x] = the stored offsets.  The
+    view lists level k iff k is a grid level and an aligned interval has a
+    crossing row there, and the value it lists IS [head_mean E x k]: every
+    statement of this file about [head_mean] / [dev] / [objective] with these E
+    and x is a statement about the curve the view shows. *)
+From Spowtd Require Import Model.Views Proofs.ViewsSpec Proofs.ViewsFitSpec.
+From Coq Require Import Sorted.
+
+Theorem C05_view_is_level_mean : forall offsets crossings grid step,
+  NoDup grid ->
+  let E := aligned_entries offsets crossings in
+  let x := offset_of offsets in
+  view_average offsets crossings grid step
+  = map (fun k => (inject_Z k * step, head_mean E x k)) (view_levels offsets crossings grid) /\
+  StronglySorted Z.lt (view_levels offsets crossings grid) /\
+  (forall k, In k (view_levels offsets crossings grid) <->
+             In k grid /\ exists c, In c (at_head E k)) /\
+  (forall k, (exists c, In c (at_head E k)) <->
+             exists e o v, In (e, o) offsets /\ In (e, k, v) crossings).
+Proof. exact view_is_level_mean. Qed.
+Print Assumptions C05_view_is_level_mean.
+
+(** The tables a writer produces from find_offsets' result ([start_of]: start
+    epoch of the interval with a given id, distinct for distinct intervals):
+    the view over them shows, at every grid level crossed by two or more
+    intervals, the level mean under the minimising offsets, and nothing else. *)
+Theorem C05_view_shows_minimiser_curve : forall (start_of : nat -> Z) hm sids offs grid step,
+  find_offsets hm = Ok (sids, offs) ->
+  NoDup grid ->
+  (forall x y, In x sids -> In y sids -> start_of x = start_of y -> x = y) ->
+  let E := entries_of (drop_single hm) in
+  let x := assignment sids offs in
+  let O := written_offsets start_of sids offs in
+  let Cr := written_crossings start_of (drop_single hm) in
+  (forall s, resid_sum E x s == 0) /\
+  (forall y, objective E x <= objective E y) /\
+  (forall z v, In (z, v) (view_average O Cr grid step) ->
+     exists k, In k grid /\ z = inject_Z k * step /\ (exists c, In c (at_head E k)) /\
+               v == head_mean E x k) /\
+  (forall k, In k grid -> (exists c, In c (at_head E k)) ->
+     exists v, In (inject_Z k * step, v) (view_average O Cr grid step) /\ v == head_mean E x k).
+Proof. exact view_shows_minimiser_curve. Qed.
+Print Assumptions C05_view_shows_minimiser_curve.
+
+(** Non-vacuity: the tables written from [C05_example] (start epochs 100, 200,
+    300; level 8 is crossed by one interval and not stored), grid 4..8, step
+    1/2: the view's rows are (level * step, level mean under the fitted offsets). *)
+Example C05_example_view :
+  let sids := [0%nat; 1%nat; 2%nat] in
+  let offs := [20 # 3; 53 # 15; 0] in
+  let start_of := fun s => (100 * Z.of_nat (S s))%Z in
+  let O := written_offsets start_of sids offs in
+  let Cr := written_crossings start_of (drop_single C05_example_hm) in
+  O = [(100%Z, 20 # 3); (200%Z, 53 # 15); (300%Z, 0)] /\
+  map (fun r => (Qred (fst r), Qred (snd r))) (view_average O Cr [4; 5; 6; 7; 8]%Z (1 # 2))
+  = [(5 # 2, 38 # 5); (3, 131 # 15); (7 # 2, 154 # 15)] /\
+  map (fun k => Qred (head_mean (entries_of (drop_single C05_example_hm)) (assignment sids offs) k))
+      [5; 6; 7]%Z = [38 # 5; 131 # 15; 154 # 15].
+Proof. vm_compute. repeat split; reflexivity. Qed.
